@@ -37,3 +37,28 @@ def events_of(path, kind=None):
 
 def loc(site):
     return site.loc() if site is not None else "?"
+
+
+def call_events(path, callee, outcome="ok"):
+    """top-level call events of `path` to the given callee string with the given outcome"""
+    out = []
+    for ev in path.events:
+        if ev[0] == "call" and ev[2] == callee and (outcome is None or ev[5][0] == outcome):
+            out.append(ev)
+    return out
+
+
+def mentions(f, t):
+    if f == t:
+        return True
+    if isinstance(f, (tuple, frozenset)):
+        return any(mentions(x, t) for x in f)
+    return False
+
+
+def fn_site(eng, sm):
+    return eng.prog.site(sm.fi.mod, sm.fi.node, sm.fi.qualname)
+
+
+CHECKER = "repo:common.checkformat_delegating_metadata"
+VSIG = "repo:authentication.verify_signable"
